@@ -6,7 +6,10 @@
 // so a schedule is a pure function of the tape at any GOMAXPROCS.
 package sched
 
-import "fmt"
+import (
+	"fmt"
+	"runtime"
+)
 
 // Decider makes the two scheduling decisions.
 type Decider interface {
@@ -33,6 +36,7 @@ type Stats struct {
 	Hash     uint64   // hash of the (task, site) switch sequence
 	Overlaps int      // preemptions that landed while >=2 tasks were inside library code
 	Panics   []string // per task: the panic message, "" if none
+	Foreign  int      // preemption points reached on a goroutine that is none of the tasks (started by the library itself): never preempted there
 }
 
 type msg struct {
@@ -52,6 +56,7 @@ type Sched struct {
 	step    int
 	st      Stats
 	limit   int
+	gids    []uint64 // goroutine id of each task
 }
 
 // ErrRunaway is returned when a run exceeds its step budget.
@@ -72,8 +77,31 @@ func (s *Sched) hook(site int) {
 	if !s.d.Preempt(s.step, site, t) {
 		return
 	}
+	if goid() != s.gids[t] {
+		// a goroutine the library started itself: it is not a task and holds
+		// no baton, so it cannot be parked
+		s.st.Foreign++
+		return
+	}
 	s.back <- msg{task: t, site: site}
 	<-s.resume[t]
+}
+
+// goid returns the id of the calling goroutine (parsed from its stack
+// header; only used on the rare preemption path).
+//
+//go:norace
+func goid() uint64 {
+	var buf [64]byte
+	n := runtime.Stack(buf[:], false)
+	var id uint64
+	for _, c := range buf[len("goroutine "):n] {
+		if c < '0' || c > '9' {
+			break
+		}
+		id = id*10 + uint64(c-'0')
+	}
+	return id
 }
 
 // Run executes the tasks under the decider. install is called with the hook
@@ -82,7 +110,7 @@ func (s *Sched) hook(site int) {
 // it (task = the task that just ran); a non-nil error stops the run.
 func Run(tasks []func(), d Decider, install func(func(int)), afterSlice func(task int, finished bool) error, stepLimit int) (Stats, error) {
 	n := len(tasks)
-	s := &Sched{d: d, resume: make([]chan struct{}, n), back: make(chan msg), cur: -1, started: make([]bool, n), inLib: make([]bool, n), limit: stepLimit}
+	s := &Sched{d: d, resume: make([]chan struct{}, n), back: make(chan msg), cur: -1, started: make([]bool, n), inLib: make([]bool, n), limit: stepLimit, gids: make([]uint64, n)}
 	for i := range s.resume {
 		s.resume[i] = make(chan struct{})
 	}
@@ -94,6 +122,7 @@ func Run(tasks []func(), d Decider, install func(func(int)), afterSlice func(tas
 		i := i
 		go func() {
 			<-s.resume[i]
+			s.gids[i] = goid()
 			defer func() {
 				if r := recover(); r != nil {
 					s.st.Panics[i] = fmt.Sprint(r)
